@@ -328,7 +328,8 @@ def _p10(ctx):
                     x.atoms[x.rep(l[1])].on('ReadCursor.readers') and x.atoms[x.rep(r[1])].on('ReadCursor.readers') and x.rep(l[1]) != x.rep(r[1]):
                 first = [n for n in (x.rep(l[1]), x.rep(r[1])) if any(x.rep(s.nid) == n for a in scans for s in x.loads_in(g.call_args(a.nid)[0]))]
                 second = [n for n in (x.rep(l[1]), x.rep(r[1])) if n not in first]
-                if first and second and all(x.reaches(a.nid, second[0]) for a in scans):
+                if first and second and scans and all(x.reaches(a.nid, second[0], blocked=set(first)) for a in scans) and \
+                        not any(x.reaches(second[0], a.nid, blocked=set(first)) for a in scans):
                     eq_edges.update(x.switch_edges(sid, 'nonzero' if e[1] == 'Eq' else 'zero'))
     ok = bool(eq_edges) and all(x.dom(eq_edges, ex) for ex in g.exits)
     ctx.add('P10f', 'T-DOM', gmd, ok, 'the scan result is returned only when the list pointer re-loaded after the scan equals the one scanned' if ok else
